@@ -761,7 +761,10 @@ impl GlobalInferenceCtx<'_> {
                 // ),
                 _ => ExprMutability::ImmutableRef(self.bodies.range_for_expr(expr)),
             },
-            Expr::Deref { pointer } => self.get_mutability(*pointer, assignment, true),
+            Expr::Deref { pointer } => self.through_pointer(
+                *pointer,
+                self.get_mutability(*pointer, assignment, true),
+            ),
             Expr::Index { source: array, .. } => {
                 // the element itself is a pointer that is being dereferenced:
                 // its own type decides (just like a pointer stored in a struct field)
@@ -773,10 +776,14 @@ impl GlobalInferenceCtx<'_> {
                     };
                 }
 
-                self.get_mutability(
+                // indexing through a pointer dereferences it
+                self.through_pointer(
                     *array,
-                    assignment,
-                    deref || self.tys[self.loc][*array].is_pointer(),
+                    self.get_mutability(
+                        *array,
+                        assignment,
+                        deref || self.tys[self.loc][*array].is_pointer(),
+                    ),
                 )
             }
             Expr::Block {
@@ -866,14 +873,19 @@ impl GlobalInferenceCtx<'_> {
                             ExprMutability::ImmutableRef(field.range)
                         }
                     }
-                    _ => self.get_mutability(
+                    // a member access through a pointer dereferences it
+                    _ => self.through_pointer(
                         *previous,
-                        assignment,
-                        deref || previous_ty.is_pointer(),
+                        self.get_mutability(
+                            *previous,
+                            assignment,
+                            deref || previous_ty.is_pointer(),
+                        ),
                     ),
                 }
             }
-            Expr::Call { .. } if deref => ExprMutability::Mutable,
+            // the pointer a call returns says itself whether it can be written through
+            Expr::Call { .. } if deref => self.through_pointer(expr, ExprMutability::Mutable),
             Expr::Cast { .. } if deref => {
                 let ty = self.tys[self.loc][expr];
 
@@ -911,6 +923,18 @@ impl GlobalInferenceCtx<'_> {
                 }
             }
             _ => ExprMutability::CannotMutateExpr(self.bodies.range_for_expr(expr)),
+        }
+    }
+
+    /// `found` is what the path up to `pointer` allows. If `pointer` is an immutable pointer that
+    /// is dereferenced by the next step, nothing can be written through it, whatever it was
+    /// reached through (`pp^^ = 1` with `pp : ^mut ^i32`, a `^T` returned by a call, ...)
+    fn through_pointer(&self, pointer: Idx<Expr>, found: ExprMutability) -> ExprMutability {
+        match (found, self.tys[self.loc][pointer].as_pointer()) {
+            (ExprMutability::Mutable, Some((false, _))) => {
+                ExprMutability::ImmutableRef(self.bodies.range_for_expr(pointer))
+            }
+            (found, _) => found,
         }
     }
 
